@@ -65,6 +65,30 @@ case("C02", "parsers", domain="SW")(_body)
 case("C02", "parsers_num", domain="SNum")(_body)
 
 
+@case("C02", "parsers_bool", domain="SNum")
+def parsers_bool(ctx):
+    """Idempotent behaviour: the shipped Boolean semiring (weights mapped through Boolean(x > 0) as the
+    library does); the reference is plain Boolean membership."""
+    from genlm.grammar.semiring import Boolean
+
+    P = ctx.P
+    sk = grammar(P["shape"])
+    ws = grammar_weights(ctx, sk)
+    live = [(1 if not ctx.D.is_zero_weight(w) else 0, h, b) for w, (h, b) in zip(ws, sk.rules)]
+    strings = [tuple(x) for x in P["strings"]]
+    for pname in P["parsers"]:
+        cfg = make_cfg(ctx, sk, ws, R=Boolean, wmap=lambda w: Boolean(w > 0))
+        ok, p = ctx.call(f"{pname}:construct", _parser, pname, cfg, sig=f"bool:{pname}:construct")
+        if not ok:
+            continue
+        for x in strings:
+            ok, v = ctx.call(f"{pname}:{x}", p, x, sig=f"bool:{pname}:{'empty' if not x else 'nonempty'}-string")
+            if ok:
+                want = O.bool_member(live, sk.V, sk.S, x)
+                good = isinstance(v, Boolean) and v.score == want
+                ctx.check(f"Boolean {pname}({x})", good, detail=f"got {v!r} want {want}", sig=f"bool:{pname}:{P['shape']}:{''.join(x)}")
+
+
 @case("C02", "materialize", domain="SW")
 def materialize(ctx):
     P = ctx.P
@@ -104,6 +128,10 @@ def jobs(tier, seed):
             chunk = strings[c:c + 5]
             out.append(dict(case="parsers", params=dict(shape=sh, strings=chunk, parsers=["call", "earley", "cky"])))
             out.append(dict(case="parsers_num", params=dict(shape=sh, strings=chunk, parsers=["rescaled"])))
+    for sh in (["G-NU", "G-UC"] if quick else ["G-NU", "G-UC", "G-CAT", "G-DUP", "G-NULL3", "G-LR"]):
+        sk = grammar(sh)
+        strings = [list(x) for x in all_strings(sk.V, L)]
+        out.append(dict(case="parsers_bool", params=dict(shape=sh, strings=strings, parsers=["call", "earley", "cky"])))
     # schedules: all tie-break orders of the agenda
     for sh in (["G-WIDE"] if quick else ["G-WIDE", "G-UC", "G-LR"]):
         sk = grammar(sh)
@@ -128,10 +156,12 @@ def jobs(tier, seed):
     for sh in (["G-NU", "G-FIN"] if quick else ["G-NU", "G-FIN", "G-CAT", "G-DUP", "G-PAL"]):
         for n in ([0, 2] if quick else [0, 1, 2, 3]):
             out.append(dict(case="materialize", params=dict(shape=sh, n=n)))
+    out.append(dict(case="parsers", params=dict(shape="G-S1", strings=[[], ["a"], ["a", "a"]], parsers=["call", "earley", "cky"], canary=True)))
+    out.append(dict(case="parsers_num", params=dict(shape="G-S1", strings=[["a"], ["a", "a"]], parsers=["rescaled"], canary=True)))
     seeds = [0, 1 + seed % 1000] if quick else [0, 1, 2, 3, 4, 5, 6, 1 + seed % 1000]
     full = []
     for i, j in enumerate(out):
-        for s in (seeds if j["params"].get("heap") != "nondet" else seeds[:1]):
+        for s in (seeds if (j["params"].get("heap") != "nondet" and not j["params"].get("canary")) else seeds[:1]):
             full.append(dict(j, hashseed=s))
     return full
 
